@@ -515,30 +515,30 @@ type SplitSpec struct {
 }
 
 type FuncSpec struct {
-	Name       string
-	Pkg        string
-	Props      []string
-	Requires   []*Clause
-	Ensures    []*Clause
-	Modifies   []*Clause
-	HasMod     bool
-	Loops      map[int]*LoopSpec
-	Safe       bool
-	NoWrap     bool
-	WrapOK     []string
-	Inline     bool
-	Trusted    bool // contract assumed, body not verified (listed in evidence)
-	Pure       bool
-	Decreases  *Clause
-	Uses       []string
-	Splits     []*SplitSpec
-	Asserts    []*Clause
-	NoPanicOff bool
+	Name            string
+	Pkg             string
+	Props           []string
+	Requires        []*Clause
+	Ensures         []*Clause
+	Modifies        []*Clause
+	HasMod          bool
+	Loops           map[int]*LoopSpec
+	Safe            bool
+	NoWrap          bool
+	WrapOK          []string
+	Inline          bool
+	Trusted         bool // contract assumed, body not verified (listed in evidence)
+	Pure            bool
+	Decreases       *Clause
+	Uses            []string
+	Splits          []*SplitSpec
+	Asserts         []*Clause
+	NoPanicOff      bool
 	Implementations bool // contract on an interface method, checked against every implementation
-	Reveal     []string
-	File       string
-	Line       int
-	Timeout    int
+	Reveal          []string
+	File            string
+	Line            int
+	Timeout         int
 }
 
 type SpecFn struct {
@@ -580,22 +580,22 @@ type Axiom struct {
 
 type GuardSpec struct {
 	WritesOnly bool
-	Field string // Type.field
-	Mutex string // field name of the mutex in the same struct
-	Pkg   string
+	Field      string // Type.field
+	Mutex      string // field name of the mutex in the same struct
+	Pkg        string
 }
 
 type SpecFile struct {
 	InitOnly    []string
 	LockProps   []string
 	OpaqueNames []string
-	Funcs  map[string]*FuncSpec // key: pkgname.relname
-	Order  []string
-	Specs  []*SpecFn
-	Lemmas []*Lemma
-	Axioms []*Axiom
-	Guards []*GuardSpec
-	Files  []string
+	Funcs       map[string]*FuncSpec // key: pkgname.relname
+	Order       []string
+	Specs       []*SpecFn
+	Lemmas      []*Lemma
+	Axioms      []*Axiom
+	Guards      []*GuardSpec
+	Files       []string
 }
 
 func newSpecFile() *SpecFile { return &SpecFile{Funcs: map[string]*FuncSpec{}} }
